@@ -557,7 +557,13 @@ func (v *audioPackager) Encode(frame *AudioFrame) (tag []byte, err error) {
 func (v *audioPackager) Decode(tag []byte) (frame *AudioFrame, err error) {
 	// Refer to @doc video_file_format_spec_v10.pdf, @page 76, @section E.4.2 Audio Tags
 	// @see SrsFormat::audio_aac_demux
-	if len(tag) < 2 {
+	if len(tag) < 1 {
+		err = errDataNotEnough
+		return
+	}
+
+	// Only AAC and Opus have the trait byte after the audio tag header.
+	if f := AudioCodec(uint8(tag[0]>>4) & 0x0f); (f == AudioCodecAAC || f == AudioCodecOpus) && len(tag) < 2 {
 		err = errDataNotEnough
 		return
 	}
